@@ -82,6 +82,9 @@ def _tensor_box(b):
             vals = b.get("vals") or default_vals(b)
             arr = arr.real.astype(np.int64 if all(
                 isinstance(v, int) for v in vals) else float)
+        if b.get("objarr"):
+            # Python numbers in an object array (what symbolic entries use)
+            arr = np.array(arr.tolist(), dtype=object)
         if b.get("dag"):
             return tensor.Box(b["name"], _dim(b["cod"]), _dim(b["dom"]),
                               arr).dagger()
